@@ -70,3 +70,61 @@ func init() {
 	vHarness["VerifC07_NATEgressSubscriber"] = VerifC07_NATEgressSubscriber
 	vHarness["VerifC06_NATKey"] = VerifC06_NATKey
 }
+
+// nat44_ingress for a flow whose session was evicted from the LRU session table while its reverse entry survived:
+// the frame belongs to no live session and must be handed on untouched (or dropped), never half-translated.
+func VerifC07_NATIngressEvictedSession() {
+	vBPFMapsMode("null")
+	m, _, _ := verifNATManager(false)
+	m.subscriberNAT = &ebpf.Map{}
+	vBPFBindMap(m.subscriberNAT, "nat44", "subscriber_nat")
+	priv := net.IP{10, 0, 0, 1}
+	_, err := m.AllocateNAT(priv)
+	vAssume(err == nil)
+	proto := []byte{6, 17}[ndPick("proto", 2)]
+	l4 := 8
+	if proto == 6 {
+		l4 = 20
+	}
+	// outbound packet of the subscriber creates the session and the reverse entry
+	f := make([]byte, 14+20+l4)
+	f[12], f[13] = 0x08, 0x00
+	f[14] = 0x45
+	f[22], f[23] = 64, proto
+	copy(f[26:30], priv)
+	copy(f[30:34], []byte{8, 8, 8, 8})
+	copy(f[34:36], ndBytes("sport", 2))
+	f[36], f[37] = 0, 53
+	if proto == 6 {
+		f[46] = 0x50
+		f[47] = 0x02 // SYN
+	}
+	v := vBPFRun("nat44", "nat44_egress", "tc", f)
+	out := append([]byte(nil), vBPFPacket()...)
+	vAssume(v == 0 && !bytes.Equal(out[26:30], priv)) // translated
+	// the session table evicts the session; the reverse table still holds its entry
+	vBPFMapClear("nat44", "nat_sessions")
+	// the peer's reply arrives
+	r := make([]byte, 14+20+l4)
+	r[12], r[13] = 0x08, 0x00
+	r[14] = 0x45
+	r[22], r[23] = 64, proto
+	copy(r[26:30], []byte{8, 8, 8, 8})
+	copy(r[30:34], out[26:30]) // to the public address ...
+	r[34], r[35] = 0, 53
+	copy(r[36:38], out[34:36]) // ... and port the subscriber was translated to
+	if proto == 6 {
+		r[46] = 0x50
+		r[47] = 0x12 // SYN-ACK
+	}
+	orig := append([]byte(nil), r...)
+	v2 := vBPFRun("nat44", "nat44_ingress", "tc", r)
+	got := vBPFPacket()
+	vAssert(v2 == 0 || v2 == 2, "undefined verdict")
+	if v2 == 0 {
+		vAssert(len(got) == len(orig) && bytes.Equal(got, orig), "a frame that belongs to no live session was handed on modified")
+	}
+	vReach("end")
+}
+
+func init() { vHarness["VerifC07_NATIngressEvictedSession"] = VerifC07_NATIngressEvictedSession }
